@@ -63,3 +63,54 @@ Inductive on_done_decision := DFire (a : nat) | DComplete | DNothing.
 
 (* ---- _enter_states: what is entered by default below one state of the list being entered ---- *)
 Inductive descent_decision := DescendInto (l : list nat) | DescendNone | DescendError.
+
+(* ---- effect skeletons of _exit_states / _enter_states: the alphabets and their interpreters ---- *)
+Inductive xeff := XCancel | XActions | XLeave.
+Inductive xstep := XRecord | XLoop (body : list xeff).
+Inductive neff := NAdd | NActions | NSchedule | NFinalCheck | NDescend.
+
+Definition run_xeff (eng : engine) (pr : bool) (m : machine) (ev : option event) (x : nat) (e : xeff) : M :=
+  match e with
+  | XCancel => cancel x
+  | XActions => (fun s => exec_actions eng pr (n_exit (nd m x)) (exit_event eng m ev x) s)
+  | XLeave => lift (fun s => if mem x (s_cfg s) then logo (OLeave x) (with_cfg (cdel x (s_cfg s)) s) else s)
+  end.
+Definition run_xstep (eng : engine) (pr : bool) (m : machine) (l : list nat) (ev : option event) (st : xstep) : M :=
+  match st with
+  | XRecord => lift (record_history m l)
+  | XLoop body => for_each (fun x => for_each (run_xeff eng pr m ev x) body) l
+  end.
+Definition run_exit_skeleton (sk : list xstep) (eng : engine) (pr : bool) (m : machine) (l : list nat) (ev : option event) : M :=
+  for_each (run_xstep eng pr m l ev) sk.
+
+(* what is entered by default below x (the decision of Proofs/EntryBridge.v, restated here as a function of the model) *)
+Definition descent_of (m : machine) (l : list nat) (x : nat) : descent_decision :=
+  match kind_of m x with
+  | KCompound =>
+      match n_initial (nd m x) with
+      | Some i => if mem x (parents_of m l) then DescendNone else DescendInto [i]
+      | None => match children m x with [] => DescendNone | _ => DescendError end
+      end
+  | KParallel =>
+      match filter (fun c => negb (is_history m c) && negb (mem c (with_parent m l))) (children m x) with
+      | [] => DescendNone
+      | regions => DescendInto regions
+      end
+  | _ => DescendNone
+  end.
+Definition run_neff (eng : engine) (pr : bool) (m : machine) (rec : list nat -> option event -> M) (l : list nat) (ev : option event)
+           (x : nat) (e : neff) : M :=
+  match e with
+  | NAdd => lift (fun s => logo (OEnter x) (with_cfg (cadd x (s_cfg s)) s))
+  | NActions => (fun s => exec_actions eng pr (n_entry (nd m x)) (entry_event eng m ev x) s)
+  | NSchedule => sched eng m x
+  | NFinalCheck => if is_final m x then lift (fire_on_done eng pr m x) else ret
+  | NDescend => match descent_of m l x with
+                | DescendInto below => rec below (match eng with Async => Some (entry_event eng m ev x) | _ => ev end)
+                | DescendNone => ret
+                | DescendError => raise EInvalidConfig
+                end
+  end.
+Definition run_entry_skeleton (sk : list neff) (eng : engine) (pr : bool) (m : machine) (rec : list nat -> option event -> M)
+           (l : list nat) (ev : option event) (x : nat) : M :=
+  for_each (run_neff eng pr m rec l ev x) sk.
